@@ -17,18 +17,19 @@ import (
 )
 
 var (
-	flagProp    = flag.String("property", "", "property id (C01..C20)")
-	flagTier    = flag.String("tier", "quick", "quick | thorough")
-	flagRepo    = flag.String("repo", "/repo", "repository root to analyse")
-	flagVerif   = flag.String("verif", "", "verification root (default: parent of the executable's directory, else /verif)")
-	flagReplay  = flag.String("replay", "", "replay artefact to re-evaluate")
-	flagList    = flag.Bool("list", false, "list rules and properties")
-	flagDump    = flag.String("dump", "", "debug: dump SSA of functions whose name contains this string")
-	flagRules   = flag.String("rules", "", "debug: run only these comma separated rules and print all obligations")
-	flagArch    = flag.String("arch", "", "GOARCH to analyse under (default: host)")
-	flagNoEvid  = flag.Bool("no-evidence", false, "do not write evidence/replay files (used for scratch-copy variants)")
-	flagVerbose = flag.Bool("v", false, "print every obligation")
-	flagJSON    = flag.Bool("json", false, "with -rules: print obligations as JSON")
+	flagProp     = flag.String("property", "", "property id (C01..C20)")
+	flagTier     = flag.String("tier", "quick", "quick | thorough")
+	flagRepo     = flag.String("repo", "/repo", "repository root to analyse")
+	flagVerif    = flag.String("verif", "", "verification root (default: parent of the executable's directory, else /verif)")
+	flagReplay   = flag.String("replay", "", "replay artefact to re-evaluate")
+	flagList     = flag.Bool("list", false, "list rules and properties")
+	flagDump     = flag.String("dump", "", "debug: dump SSA of functions whose name contains this string")
+	flagRules    = flag.String("rules", "", "debug: run only these comma separated rules and print all obligations")
+	flagArch     = flag.String("arch", "", "GOARCH to analyse under (default: host)")
+	flagNoEvid   = flag.Bool("no-evidence", false, "do not write evidence/replay files (used for scratch-copy variants)")
+	flagVerbose  = flag.Bool("v", false, "print every obligation")
+	flagJSON     = flag.Bool("json", false, "with -rules: print obligations as JSON")
+	flagManifest = flag.Bool("manifest", false, "print MANIFEST.json generated from the property table")
 )
 
 var ruleTable = map[string]*Rule{}
@@ -58,6 +59,8 @@ func verifRoot() string {
 func main() {
 	flag.Parse()
 	switch {
+	case *flagManifest:
+		printManifest()
 	case *flagList:
 		listRules()
 	case *flagDump != "":
